@@ -353,7 +353,9 @@ def projection_leaf_coverage(repo, hits):
 # ----------------------------------------------------------------------------- leaf-directed tetrahedra (generation guidance only)
 def tetra_leaf(d, c, b, a):
     """Which leaf of project_tetra_to_origin a tetrahedron reaches, computed by a plain-Python replica of the TESTS of the
-    tree (line numbers of _gjk_nesterov_accelerated.py as leaf names).  Used only to pick inputs; never to judge."""
+    tree (line numbers of _gjk_nesterov_accelerated.py at the time of writing as leaf names; the string names are the
+    regions the F-N3 repair split off - in the unrepaired code they are part of the leaf whose number they carry).
+    Used only to pick inputs; never to judge."""
     dot = lambda x, y: x[0] * y[0] + x[1] * y[1] + x[2] * y[2]  # noqa
     cross = lambda x, y: (x[1] * y[2] - x[2] * y[1], x[2] * y[0] - x[0] * y[2], x[0] * y[1] - x[1] * y[0])  # noqa
     aa = dot(a, a)
@@ -375,7 +377,11 @@ def tetra_leaf(d, c, b, a):
         if -dot(d, axb) <= 0:
             if t1 <= 0:
                 if da_aa <= 0:
-                    return 385 if t2 <= 0 else 387
+                    if t2 <= 0:
+                        if t3 <= 0:                       # sub-leaves of the F-N3 repair (one leaf, 385, before it)
+                            return "385.acd" if t4 <= 0 else "385.ac"
+                        return 385
+                    return 387
                 if t2 <= 0:
                     if t3 <= 0:
                         return 392 if t4 <= 0 else 394
@@ -389,9 +395,11 @@ def tetra_leaf(d, c, b, a):
         if dot(c, axb) <= 0:
             if t2 <= 0:
                 if t3 <= 0:
-                    return 418 if t4 <= 0 else 420
+                    if t4 <= 0:
+                        return "418.ad" if t6 <= 0 else 418   # sub-leaf of the F-N3 repair
+                    return 420
                 return 422
-            return 424
+            return 424                                        # F-N3: region_ad before the repair, region_ab after
         if dot(d, axc) <= 0:
             if t4 <= 0:
                 return 429 if t6 <= 0 else 431
@@ -407,7 +415,9 @@ def tetra_leaf(d, c, b, a):
                 return 453 if t3 <= 0 else 455
             if t3 <= 0:
                 return 459 if t4 <= 0 else 461
-            return 464 if dot(c, axb) else 466
+            if dot(c, axb) == 0:
+                return 466
+            return 464 if dot(c, axb) < 0 else "464.pos"       # F-N3: `if c.dot(a_cross_b):` took region_abc for both signs
         if dot(c, axb) <= 0:
             return 470 if t3 <= 0 else 472
         if -dot(d, axb) <= 0:
@@ -455,5 +465,5 @@ def leaf_directed_tetrahedra(rng, per_leaf=6, budget=150000):
             a = [-cen[k] * rng.uniform(-0.5, 2.0) + rng.gauss(0, 1) * sc * rng.choice([0.1, 0.5, 1.0]) for k in range(3)]
             P = P + [a]
         add(P)
-    hist = {k: len(v) for k, v in sorted(buckets.items())}
+    hist = {k: len(v) for k, v in sorted(buckets.items(), key=lambda kv: str(kv[0]))}
     return [P for v in buckets.values() for P in v], hist
